@@ -35,6 +35,8 @@ type thread struct {
 	pos     int    // points passed
 	obs     uint64 // hash of everything shims returned to this thread
 	inGet   int    // harness-defined "must not block" depth
+	daemon  bool   // environment event: need not run or finish
+	quit    bool   // set when the execution is over: BlockOrQuit returns false
 }
 
 // PointInfo records one decision of an execution.
@@ -167,6 +169,30 @@ func Block(op Op, enabled func() bool) {
 	t.pos++
 	e.parked <- struct{}{}
 	<-t.resume
+}
+
+// GoDaemon starts a thread for an environment event (a timer firing, a process
+// exiting). It does not keep the execution alive: when every ordinary thread
+// has finished, a daemon parked in BlockOrQuit is told to quit.
+func GoDaemon(name string, f func()) {
+	e := active
+	if e == nil {
+		return
+	}
+	t := e.spawn(name, f)
+	t.daemon = true
+}
+
+// BlockOrQuit is Block for daemon threads: it returns false if the execution
+// ended while the thread was parked; the thread must then return at once.
+func BlockOrQuit(op Op, enabled func() bool) bool {
+	e := active
+	if e == nil {
+		return false
+	}
+	t := e.cur
+	Block(op, enabled)
+	return !t.quit
 }
 
 // Choose is a data choice point with n alternatives (cost 0). Free-running it
@@ -302,7 +328,9 @@ func Run(body func(), opt Options) *Exec {
 			if t.done {
 				continue
 			}
-			unfinished++
+			if !t.daemon {
+				unfinished++
+			}
 			if t.enabled == nil || t.enabled() {
 				if t == e.cur {
 					curEnabled = true
@@ -360,6 +388,20 @@ func Run(body func(), opt Options) *Exec {
 		if e.PanicVal != nil {
 			e.abort()
 			return e
+		}
+	}
+	// the execution is over: let parked daemon threads return
+	for _, t := range e.threads {
+		if !t.done && t.daemon {
+			t.quit = true
+			for i := 0; !t.done; i++ {
+				if i > 100 {
+					panic("sched: daemon thread " + t.name + " did not return when told to quit")
+				}
+				e.cur = t
+				t.resume <- struct{}{}
+				<-e.parked
+			}
 		}
 	}
 	if len(e.Choices) < len(e.prefix) {
